@@ -32,7 +32,7 @@ SPAN = "guppylang_internals.span"
 REPLAY = ORACLE + r'''
 I = INPUT
 bad = check_render(I["lines"], I["diag"])
-print(json.dumps({"violates": bad is not None, "detail": bad, "input": I if bad else None}))
+print(json.dumps({"violates": bad is not None or (I.get("expect_no_split") and bool(KNOWN_SPLITS)), "detail": bad or (KNOWN_SPLITS and "a word longer than the line width was split: " + repr(KNOWN_SPLITS[0][1])), "input": I if bad else None}))
 '''
 
 FINDER = ORACLE + r'''
@@ -72,7 +72,12 @@ if bad is None:
         n += 1
         r = check_render(["x = 1"], {"span": None, "message": text or None, "title": "T"})
         if r is not None: bad = {"lines": ["x = 1"], "diag": {"span": None, "message": text}, "detail": r}; break
-print(json.dumps({"violates": bad is not None, "evaluations": n, "witness": bad, "detail": bad and bad["detail"]}))
+ks = None
+if KNOWN_SPLITS:
+    w_, W_ = KNOWN_SPLITS[0]
+    ks = {"occurrences": len(KNOWN_SPLITS), "word_length": len(w_), "line_width": W_, "detail": f"a word of {len(w_)} characters is rendered as pieces of {W_} characters ({len(KNOWN_SPLITS)} occurrences in the family)",
+          "lines": ["x = 1"], "diag": {"span": [1, 0, 1, 5], "label": "w" * 70, "message": None}}
+print(json.dumps({"violates": bad is not None, "evaluations": n, "witness": bad, "detail": bad and bad["detail"], "known_split": ks}))
 '''
 
 
@@ -207,7 +212,7 @@ def run(chk):
     chk.section("bounded", lambda: bounded_section(chk))
     chk.expected_min_obligations = 40
     chk.assumptions += [
-        "textwrap.wrap (CPython stdlib) honours its documented contract: with break_long_words=False and break_on_hyphens=False it breaks lines only at whitespace and every word of the paragraph appears in exactly one returned line, in order; it returns [] for a paragraph without words",
+        "textwrap.wrap (CPython stdlib) honours its documented contract: with break_on_hyphens=False it breaks lines only at whitespace, except that a word longer than the width is cut into width-sized pieces unless break_long_words=False, and every word of the paragraph appears in exactly one returned line, in order; it returns [] for a paragraph without words",
         "a source line is abstracted to (length, number of leading whitespace characters); str.lstrip() removes exactly the leading whitespace; characters are one column wide (no tabs/wide characters in the gutter arithmetic)",
         "digits(n) (length of str(n) for n >= 0) is >= 1 and monotone — the only facts about decimal numerals the gutter alignment needs",
         "rope equality is checked segment-wise (sufficient for string equality)",
@@ -485,6 +490,7 @@ def wrap_section(chk):
         calls.append((para.i, width, dict(k), c))
         return [Rope([("txt", f"para{para.i}", j)]) for j in range(c)]
     e.ext_models["textwrap.wrap"] = tw_model
+    LONG_OK = {False: [], True: []}
     for indents in (False, True):
         def t(it, indents=indents):
             f = it.lookup_global(e.module(MOD), "wrap")
@@ -500,10 +506,12 @@ def wrap_section(chk):
             n = p.ctx.ghost.get("paras", 0)
             res = p.value
             conj = []
+            long_ok = LONG_OK[indents]
             # every paragraph is wrapped at most once, in order, with the caller's width, never breaking inside words
             conj.append(z3.BoolVal([c[0] for c in calls] == sorted({c[0] for c in calls})))
             for (_, w, kw, _) in calls:
-                conj.append(z3.BoolVal(kw.get("break_long_words") is False and kw.get("break_on_hyphens") is False))
+                conj.append(z3.BoolVal(kw.get("break_on_hyphens") is False))
+                long_ok.append(kw.get("break_long_words") is False)
                 conj.append(_z(w) == z3.Int("width") if isinstance(w, SInt) else z3.BoolVal(False))
             byi = {c[0]: c[3] for c in calls}
             flat = []
@@ -521,10 +529,19 @@ def wrap_section(chk):
                 return z3.BoolVal(False)
             conj.append(match(res, exp))
             return z3.And(*conj)
-        chk.prove_paths(f"wrap[indents={indents}]:never-raises/\\words-kept-and-split-at-whitespace-only(break_long_words=False,break_on_hyphens=False)/\\one-output-line-per-wrapped-line-in-order/\\indents-prepended",
+        chk.prove_paths(f"wrap[indents={indents}]:never-raises/\\words-kept-and-never-split-at-hyphens(break_on_hyphens=False)/\\one-output-line-per-wrapped-line-in-order/\\indents-prepended",
                         paths, post, func=f"{MOD}:wrap",
                         replay=lambda m: {"script": REPLAY, "input": {"lines": ["x = 1"], "diag": {"span": [1, 0, 1, 5], "label": "a well-known extraordinarily-long-hyphenated-word " + "q" * 90, "message": "  "}}})
         chk.record(f"wrap[indents={indents}]:paragraph-and-line-counts-explored", len(paths) >= 20, str(len(paths)), kind="reachability")
+    # "wrapped only at whitespace" also forbids splitting a word that is longer than the line: textwrap does
+    # that unless break_long_words=False is passed
+    o = chk.record("wrap:a-word-longer-than-the-line-width-is-not-split(break_long_words=False on every textwrap call)", bool(LONG_OK[False]) and all(LONG_OK[False] + LONG_OK[True]),
+                   "textwrap.wrap is called with its default break_long_words=True", func=f"{MOD}:wrap", backend="pyvc (call arguments)")
+    if o.status == "refuted":
+        from pyvc.report import run_replay
+        inp = {"lines": ["x = 1"], "diag": {"span": [1, 0, 1, 5], "label": "w" * 70, "message": None}, "expect_no_split": True}
+        r_ = run_replay(REPLAY, inp, chk.repo, timeout=300)
+        o.replay = {"confirmed": bool(r_.get("violates")), "script": REPLAY, "input": inp, "native": r_}
     chk.use_engine(e)
 
 
@@ -539,3 +556,7 @@ def bounded_section(chk):
     chk.bounded_result("bounded:parsed-output==statement(all sources<=%d lines over 5 line shapes x all span corners x %d labels)" % (inp["max_lines"], inp["labels"]),
                        not res.get("violates"), res["evaluations"], detail=res.get("detail") or "every rendered diagnostic parsed back to the source lines, marker columns and label/message words",
                        witness=res.get("witness"), func=f"{MOD}:DiagnosticsRenderer.render_diagnostic")
+    ks = res.get("known_split")
+    if ks:
+        k = chk.bounded_result("known-deviation[word-longer-than-the-line-width-is-split]", False, ks["occurrences"], detail=ks["detail"], witness=ks, func=f"{MOD}:wrap")
+        k.replay.update({"script": REPLAY, "input": {"lines": ks["lines"], "diag": ks["diag"], "expect_no_split": True}})
